@@ -110,7 +110,16 @@ func init() {
 		for i := 0; i < *fN; i++ {
 			cap := 1 + r.intn(6)
 			now := int64(1000)
-			restore := hotkey.VerifSetNow(func() int64 { return now })
+			tick, calls := 0, 0 // tick > 0: the minute changes after every tick-th reading of the clock (in the middle of a round)
+			restore := hotkey.VerifSetNow(func() int64 {
+				if tick > 0 {
+					calls++
+					if calls%tick == 0 {
+						now++
+					}
+				}
+				return now
+			})
 			col := hotkey.NewCollector(uint8(cap))
 			nb := 1 + r.intn(3)
 			var ctrs []*hotkey.Counter
@@ -141,8 +150,12 @@ func init() {
 					if r.chance(1, 6) {
 						now++
 					}
+					if r.chance(1, 3) {
+						tick, calls = 1+r.intn(4), 0
+					}
 					col.VerifCollect()
-					steps = append(steps, "collect@"+strconv.FormatInt(now, 10)+":"+strings.Join(acc, ","))
+					steps = append(steps, "collect@"+strconv.FormatInt(now, 10)+"~"+strconv.Itoa(tick)+":"+strings.Join(acc, ","))
+					tick = 0
 				}
 				rep := col.VerifReport()
 				// the property's oracle on the report itself
